@@ -120,7 +120,9 @@ FromTo(a, b) == [k \in 1..(b - a) |-> a + k - 1]   \* <<a, .., b-1>>
 
 SetupLoop(c, index) == FoldLeft(LAMBDA acc, i : SetupLeaf(acc, i), c, FromTo(index, N))
 
-Setup ==
+\* (an operator with a parameter: TLC evaluates zero-arity constant definitions when it starts, and a
+\* trace specification for a tall tree must not pay for 2^H leaves it never asks for)
+SetupOf(unused) ==
   LET b0 == [NewBds EXCEPT !.th = [i \in 0..H-K-1 |-> [THZero EXCEPT !.h = i, !.completed = 1]]]
       c  == SetupLoop([b |-> b0, st |-> [i \in 0..H |-> ZERO], lv |-> [i \in 0..H |-> 0], off |-> 0], 0)
   IN [bds |-> c.b, root |-> c.st[0]]
